@@ -446,6 +446,51 @@ Fixpoint reparent (fuel : nat) (h : heap) (c : ptr) (par : nat) (cnt : nat) : R 
     end
   end.
 
+(* the while loop of mpt_node_move; [rec h s ck] is the recursive call
+   mpt_node_move(&s->children, ck), [d] the target list start, [lfuel] the fuel of
+   the mpt_node_locate / reparent walks *)
+Fixpoint move_loop (rec : heap -> nat -> ptr -> R (heap * nat)) (lfuel : nat) (d : nat)
+  (g : nat) (h : heap) (from : fromref) (src : ptr) (last : nat) (move : nat) {struct g}
+  : R (heap * fromref * nat) :=
+  match src with
+  | None => ROk (h, from, move)
+  | Some s =>
+    match g with
+    | 0 => RFuel
+    | S g' =>
+      do ns <- get h s;
+      do curr <- locate lfuel h (Some d) 1%Z (nname ns);
+      match curr with
+      | None =>
+        (* move complete node *)
+        let nx := nnext ns in
+        do '(h, _) <- node_unlink h (Some s);
+        do '(h, _) <- node_add false h (Some last) 0%Z (Some s);
+        do fv <- from_get h from;                (* if ( *from == curr ) then *from = src *)
+        do '(h, from) <- (if peq fv (Some s) then from_set h from nx else ROk (h, from));
+        move_loop rec lfuel d g' h from nx s (S move)
+      | Some c =>
+        do '(h, move) <-
+           match nkid ns with
+           | None => ROk (h, move)
+           | Some _ =>
+             do ck <- fld nkid h (Some c);
+             match ck with
+             | Some _ =>
+               do '(h, m) <- rec h s ck;
+               ROk (h, move + m)
+             | None =>
+               do h <- wr set_kid h c (nkid ns);
+               do h <- wr set_kid h s None;
+               reparent lfuel h (nkid ns) c move
+             end
+           end;
+        do nx <- fld nnext h (Some s);
+        move_loop rec lfuel d g' h from nx last move
+      end
+    end
+  end.
+
 Fixpoint node_move (fuel : nat) (h : heap) (from : fromref) (dst : ptr) : R (heap * fromref * nat) :=
   match fuel with
   | 0 => RFuel
@@ -454,47 +499,8 @@ Fixpoint node_move (fuel : nat) (h : heap) (from : fromref) (dst : ptr) : R (hea
     | None => ROk (h, from, 0)
     | Some d =>
       do src0 <- from_get h from;
-      (fix loop (g : nat) (h : heap) (from : fromref) (src : ptr) (last : nat) (move : nat)
-                {struct g} : R (heap * fromref * nat) :=
-         match src with
-         | None => ROk (h, from, move)
-         | Some s =>
-           match g with
-           | 0 => RFuel
-           | S g' =>
-             do ns <- get h s;
-             do curr <- locate fuel h (Some d) 1%Z (nname ns);
-             match curr with
-             | None =>
-               (* move complete node *)
-               let nx := nnext ns in
-               do '(h, _) <- node_unlink h (Some s);
-               do '(h, _) <- node_add false h (Some last) 0%Z (Some s);
-               do fv <- from_get h from;                (* if ( *from == curr ) then *from = src *)
-               do '(h, from) <- (if peq fv (Some s) then from_set h from nx else ROk (h, from));
-               loop g' h from nx s (S move)
-             | Some c =>
-               do '(h, from, move) <-
-                  match nkid ns with
-                  | None => ROk (h, from, move)
-                  | Some _ =>
-                    do ck <- fld nkid h (Some c);
-                    match ck with
-                    | Some _ =>
-                      do '(h, _, m) <- node_move f h (FromKids s) ck;
-                      ROk (h, from, move + m)
-                    | None =>
-                      do h <- wr set_kid h c (nkid ns);
-                      do h <- wr set_kid h s None;
-                      do '(h, m) <- reparent fuel h (nkid ns) c move;
-                      ROk (h, from, m)
-                    end
-                  end;
-               do nx <- fld nnext h (Some s);
-               loop g' h from nx last move
-             end
-           end
-         end) fuel h from src0 d 0
+      move_loop (fun h s ck => do '(h, _, m) <- node_move f h (FromKids s) ck; ROk (h, m))
+                fuel d fuel h from src0 d 0
     end
   end.
 
